@@ -13,11 +13,12 @@ import (
 func TestVerif(t *testing.T) {
 	vrep.Main(t, "github.com/google/licenseclassifier/internal/sets", map[string]vrep.Harness{
 		"c20_stringset": func(c *vrep.Ctx) {
+			long := c.Param("family", "") == "long"
 			u := []string{"x", "y", "z"}
 			if c.Thorough() {
 				u = append(u, "")
 			}
-			vmodel.CheckSets(c, &vmodel.SetAPI[*StringSet, string]{
+			api := &vmodel.SetAPI[*StringSet, string]{
 				Name: "StringSet", Universe: u, Fresh: "w", Nil: nil,
 				New:        func(e ...string) *StringSet { return NewStringSet(e...) },
 				Copy:       func(s *StringSet) *StringSet { return s.Copy() },
@@ -37,7 +38,12 @@ func TestVerif(t *testing.T) {
 				String:     func(a *StringSet) string { return a.String() },
 				Less:       func(a, b string) bool { return a < b },
 				Quote:      func(e string) string { return fmt.Sprintf("%q", e) },
-			})
+			}
+			if long {
+				vmodel.CheckSetsLong(c, api, func(i int) string { return fmt.Sprintf("e%05d", i) })
+				return
+			}
+			vmodel.CheckSets(c, api)
 		},
 	})
 }
